@@ -36,6 +36,7 @@ func init() {
 		// values whose low 32 bits are zero (a range check before or after a
 		// narrowing conversion sees a different number)
 		"ALIGNB 0x100000000", "ALIGNB 4294967296", "ALIGNB 0x300000000", "ALIGNB 0x10000*0x10000", "ORG 0x100000000", "INT 0x100000000", "SHL AX,0x100000000",
+		"INT \"1,2\"", "INT \"\"", "QA EQU QA+QA ; MOV AX,QA", "QA EQU QB+QB ; QB EQU QA+QA ; DB QA", "JMP FAR:8", "JMP WORD:8", "JMP DWORD:8", "JMP \"WORD\":8", "JMP NEAR:8", "CALL FAR:8",
 		"DB 7%0x100000000", "DW 9/0x100000000", "OUT 0x100000000,AL", "IN AL,0x100000000", "DD 0x100000000", "MOV AL,[BX+0x100000000]", "JMP 0x100000000",
 	)
 }
